@@ -1592,3 +1592,59 @@ E('C19', 'fraction-test-two-ifs', TU, """        if (decimal_comma := ',' in val
             raise ValueError("only the smallest unit may have a fractional part")
         num = float(value)
 """)
+
+# ---- C11 R11.1 (guard held during the dispatch) / R11.7 (refusal never swallowed); seeds C11-1, C11-2
+V('C11', 'early-init-guard-not-restored', BLK, """                with self._enable_event:    # type: ignore[attr-defined]
+                    self.circuit.init_sblock(self, full=True)
+""", """                self._event_active = False
+                self.circuit.init_sblock(self, full=True)
+""", 'R11.1')
+V('C11', 'outputfunc-success-sent-inside-try', S2, """            result = self._func(*args, **kwargs)
+        except Exception as err:
+            self.log_error(
+                "output function failed; args: %s; error: %r",
+                _args_as_string(args, kwargs), err)
+            for ev in self._on_error:
+                ev.send(self, trigger='error', error=err)
+            return ('error', err)
+        self.log_debug("output function returned: %r", result)
+        for ev in self._on_success:
+            ev.send(self, trigger='success', value=result)
+        return ('result', result)
+""", """            result = self._func(*args, **kwargs)
+            self.log_debug("output function returned: %r", result)
+            for ev in self._on_success:
+                ev.send(self, trigger='success', value=result)
+        except Exception as err:
+            self.log_error(
+                "output function failed; args: %s; error: %r",
+                _args_as_string(args, kwargs), err)
+            for ev in self._on_error:
+                ev.send(self, trigger='error', error=err)
+            return ('error', err)
+        return ('result', result)
+""", 'R11.7')
+V('C11', 'outputasync-success-sent-inside-try', S2, """            retval = await self._coro(*args, **kwargs)
+        except asyncio.CancelledError:""", """            retval = await self._coro(*args, **kwargs)
+            for ev in self._on_success:
+                ev.send(self, trigger='success', value=retval, put=data)
+        except asyncio.CancelledError:""", 'R11.7')
+V('C11', 'setoutput-error-logged-only', BLK, """                    retval = self._event(etype, data)
+            except EdzedUnknownEvent:
+                raise
+""", """                    try:
+                        retval = self._event(etype, data)
+                    except EdzedCircuitError as cerr:
+                        self.log_error("event failed: %s", cerr)
+                        retval = None
+            except EdzedUnknownEvent:
+                raise
+""", 'R11.7')
+E('C11', 'outputfunc-func-alias', S2, """            result = self._func(*args, **kwargs)
+        except Exception as err:
+            self.log_error(
+                "output function failed; args: %s; error: %r",""", """            func = self._func
+            result = func(*args, **kwargs)
+        except Exception as err:
+            self.log_error(
+                "output function failed; args: %s; error: %r",""")
